@@ -1,10 +1,13 @@
 SPECIFICATION Spec
 CONSTANTS
   NTok = 2
-  Lifetime = 4
-  MaxTime = 6
+  Lifetimes = {20, 400}
+  MaxTime = 29
   Injections = 2
+  RenewEarly = 2
+  LateFrom = 26
   Dev_ExpiryWrongKey = FALSE
+  Dev_PrefixOnly = FALSE
   AsIs_ExpiryWrongKey = FALSE
 INVARIANTS InvEmit
 CHECK_DEADLOCK FALSE
